@@ -41,7 +41,10 @@ func P2PMsgSpecs() []MsgSpec {
 		v := fillMsg(mk(), tweak)
 		out = append(out, MsgSpec{Name: "p2pmsg/" + name, Table: "p2pmsg", Cmd: v.CMD(), New: mk, Value: v})
 	}
-	add("version/old", func() p2p.Message { return &msg.Version{} }, func(m p2p.Message) { m.(*msg.Version).Version = pact.DPOSStartVersion })
+	add("version/old", func() p2p.Message { return &msg.Version{} }, func(m p2p.Message) {
+		m.(*msg.Version).Version = pact.DPOSStartVersion
+		m.(*msg.Version).NodeVersion = "" // not carried before CRProposalVersion
+	})
 	add("version/new", func() p2p.Message { return &msg.Version{} }, func(m p2p.Message) { m.(*msg.Version).Version = pact.CRProposalVersion })
 	add("verack", func() p2p.Message { return &msg.VerAck{} }, nil)
 	add("getaddr", func() p2p.Message { return &msg.GetAddr{} }, nil)
